@@ -469,7 +469,8 @@ def mixed_arg_strings():
 
 ENV_NAMES = ['[tex]', 'tex', 'a]', '[a', 'a[b]', 'a b', ' a', 'a ', 'a*', '*', 'a1', '1', '\u00e9', 'a.b', 'a-b', 'a:b', 'a_b',
              'a,b', 'a|b', 'a&b', 'a#', 'a~', 'math', 'displaymath', 'document', 'item', 'begin', 'end', 'verbatimx',
-             'xverbatim', 'a$', 'a%', 'a\\b', 'a{b}', 'equation*', 'align*', 'itemize', 'BraceGroup', 'None', '']
+             'xverbatim', 'a$', 'a%', 'a\\b', 'a{b}', 'equation*', 'align*', 'itemize', 'BraceGroup', 'None', '',
+             'textbf', 'def', 'section', 'label', 'newcommand', 'left', 'big', 'verb', 'par', 'math*', 'lstlisting*']
 
 
 def env_name_strings():
@@ -487,6 +488,16 @@ def env_name_strings():
         yield N.o + b + N.a + e + N.o
         yield '$' + b + N.a + e + '$'
         yield b + ' ' + N.a + ' ' + e + '\n'
+    # command names that coincide with names the library treats specially elsewhere
+    for nm in ('math', 'displaymath', 'tex', 'document', 'itemize', 'verbatim', 'equation', 'align', 'BraceGroup', 'end*',
+               'begin*', 'item*', 'left*', 'items', 'iteme', 'beginx', 'endx', 'verb*', 'newcommandx', 'textbfx', 'defx'):
+        c = '\\' + nm
+        yield c
+        yield c + '{' + N.a + '}' + N.b
+        yield c + '[' + N.b + ']{' + N.a + '}'
+        yield '{' + c + ' ' + N.a + '}'
+        yield '$' + c + '{' + N.a + '}$'
+        yield c + ' ' + N.a + '\n\n' + c + N.o
     # a verbatim-like body that quotes a closer whose name merely starts or ends with the environment's own name
     for v, other in (('verbatim', 'verbatimtab'), ('verbatim', 'verbatim*'), ('listing', 'listings'), ('listing', 'lstlisting'),
                      ('Verbatim', 'Verbatimx'), ('lstlisting', 'lstlisting2'), ('verbatimtab', 'verbatimtabs')):
